@@ -318,6 +318,59 @@ static void do_curve(const J& g, W& w) {
         w.end_obj();
     }
     w.end_arr();
+    {
+        // Array overloads: the same history on a fresh curve with every maximal run of consecutive
+        // sections of one polynomial kind and one placement mode issued as ONE call (relative points
+        // are relative to the end point before the call, so they are re-expressed from the positions
+        // the single calls reached).  Coordinates are small integers: the vertices must be identical.
+        Curve c3 = {};
+        c3.init(Vec2{0, 0}, tol);
+        bool batchable = true;
+        int64_t runs = 0;
+        size_t si = 0, nsec = g["secs"].size();
+        auto poly_kind = [](const std::string& k) {
+            return k == "segment" || k == "cubic" || k == "cubic_smooth" || k == "quadratic" || k == "quadratic_smooth";
+        };
+        while (si < nsec && batchable) {
+            const J& s = g["secs"][si]["sec"];
+            const std::string k = s["k"].s();
+            if (!poly_kind(k)) { batchable = false; break; }
+            bool rel = s["rel"].t();
+            size_t sj = si;
+            while (sj + 1 < nsec && g["secs"][sj + 1]["sec"]["k"].s() == k && g["secs"][sj + 1]["sec"]["rel"].t() == rel) sj++;
+            if (sj > si) runs++;
+            Vec2 ref = c3.point_array[c3.point_array.count - 1];
+            Vec2 cur = ref;  // end point the single calls would have reached
+            Array<Vec2> pts = {};
+            for (size_t q = si; q <= sj; q++) {
+                const J& t = g["secs"][q]["sec"];
+                auto conv = [&](const J& pj) { return rel ? cur + jp(pj) - ref : jp(pj); };
+                if (k == "segment") pts.append(conv(t["p"]));
+                else if (k == "cubic") { pts.append(conv(t["c1"])); pts.append(conv(t["c2"])); pts.append(conv(t["e"])); }
+                else if (k == "cubic_smooth") { pts.append(conv(t["c2"])); pts.append(conv(t["e"])); }
+                else if (k == "quadratic") { pts.append(conv(t["c"])); pts.append(conv(t["e"])); }
+                else pts.append(conv(t["e"]));
+                const J& pe = k == "segment" ? t["p"] : t["e"];
+                cur = rel ? cur + jp(pe) : jp(pe);
+            }
+            if (k == "segment") c3.segment(pts, rel);
+            else if (k == "cubic") c3.cubic(pts, rel);
+            else if (k == "cubic_smooth") c3.cubic_smooth(pts, rel);
+            else if (k == "quadratic") c3.quadratic(pts, rel);
+            else c3.quadratic_smooth(pts, rel);
+            pts.clear();
+            si = sj + 1;
+        }
+        bool same = true;
+        if (batchable && !cmd) {
+            same = c3.point_array.count == c.point_array.count;
+            for (uint64_t i = 0; same && i < c.point_array.count; i++)
+                same = c3.point_array[i].x == c.point_array[i].x && c3.point_array[i].y == c.point_array[i].y;
+            same = same && c3.last_ctrl.x == c.last_ctrl.x && c3.last_ctrl.y == c.last_ctrl.y;
+        }
+        c3.clear();
+        w.kb("batchable", batchable && !cmd).kv("batch_runs", runs).kb("batch_same", same);
+    }
     if (cmd) {
         // the whole history as ONE command array on a fresh curve gives the same vertices
         bool same = true;
